@@ -4,6 +4,7 @@ import (
 	"bytes"
 	"encoding/json"
 	"fmt"
+	"math"
 	"math/rand"
 	"os"
 	"path/filepath"
@@ -117,6 +118,11 @@ func randAnnotated(r *rand.Rand) poly.Sequence {
 	m := &s.Meta
 	m.Name, m.GffVersion, m.Type, m.Date = uniText(r, 3), uniText(r, 1), uniText(r, 2), uniText(r, 2)
 	m.RegionStart, m.RegionEnd, m.Size = r.Intn(1000)-10, r.Intn(100000), r.Intn(1<<30)-5
+	if r.Intn(5) == 0 {
+		// integers are integers: values no float64 can hold exactly must survive too
+		big := []int{math.MaxInt64, math.MinInt64, 1<<53 + 1, -(1<<53 + 1), 9007199254740993, 1 << 62, math.MaxInt32 + 1}
+		m.RegionStart, m.RegionEnd, m.Size = big[r.Intn(len(big))], big[r.Intn(len(big))], big[r.Intn(len(big))]
+	}
 	m.Definition, m.Accession, m.Version, m.Keywords = uniText(r, 20), uniText(r, 2), uniText(r, 2), uniText(r, 6)
 	m.Organism, m.Source, m.Origin = uniText(r, 8), uniText(r, 6), uniText(r, 3)
 	m.Locus = poly.Locus{Name: uniText(r, 2), SequenceLength: fmt.Sprint(L), MoleculeType: uniText(r, 1), GenbankDivision: uniText(r, 1), ModificationDate: uniText(r, 1),
